@@ -501,6 +501,58 @@ theorem sync_round_joined (fixed : Bool) (tr : List TDStep) (s : TD)
   rw [if_neg]
   intro hc; omega
 
+/-! ### the worker → orchestrator channel of a sync round -/
+
+/-- once a round is aborted (the orchestrator has stopped reading), no worker's send can block,
+the round can always move on, and `wg.Wait` is reached — PROVIDED the capacity of the response
+channel covers the responses already in it plus those that may still come (two for a worker whose
+request was in flight: it may succeed and then fail the next buffered request; one for every
+other worker).  This is the assumption the code's `make(chan Resp, 128)` ("a reasonable maximum
+number of peers") stands for; it is an assumption of the model, not enforced by the code. -/
+theorem round_abort_sends_never_block (c : Nat) (s0 s : Round) (tr : List RoundStep)
+    (h0 : s0.reading = false ∧ s0.cap = c ∧ s0.demand ≤ c) (h : roundSys.run s0 tr = some s) :
+    (0 < s.busyOld → (s.step .respondOk).isSome = true ∧ (s.step .respondErr).isSome = true) ∧
+    (0 < s.busyNew → (s.step .respondErr).isSome = true) ∧
+    (s.joined = false → s.canStep = true) := by
+  have key := Sys.run_inv roundSys (fun s => s.reading = false ∧ s.cap = c ∧ s.demand ≤ c)
+    (fun s a s' hi hs => Round.aborted_step c s s' a hi hs) tr s0 s h0 h
+  obtain ⟨hr, hc, hd⟩ := key
+  simp only [Round.demand] at hd
+  refine ⟨?_, ?_, ?_⟩
+  · intro hb
+    have : s.len < s.cap := by omega
+    simp [Round.step, hb, this]
+  · intro hb
+    have : s.len < s.cap := by omega
+    simp [Round.step, hb, this]; split <;> rfl
+  · intro hj
+    simp only [Round.canStep, List.any_cons, List.any_nil, Bool.or_false, Bool.or_eq_true]
+    by_cases h1 : 0 < s.busyOld
+    · have : s.len < s.cap := by omega
+      right; left; simp [Round.step, h1, this]
+    by_cases h2 : 0 < s.busyNew
+    · have : s.len < s.cap := by omega
+      right; right; left; simp [Round.step, h2, this]; split <;> rfl
+    by_cases h3 : 0 < s.idle
+    · by_cases h4 : 0 < s.queued
+      · left; simp [Round.step, h3, h4, hr]
+      · right; right; right; left; simp [Round.step, hr, h3]; omega
+    · right; right; right; right; simp [Round.step, hr, hj]; omega
+
+/-- without that assumption it is false: capacity 1 (one request), two workers with the request and
+its end-of-round duplicate in flight, the round is aborted: the second response can never be sent,
+`wg.Wait` never returns (the seeded change `make(chan Resp, len(reqs))`, reproduced on the real
+code: `Syncer.Close` hangs) -/
+theorem round_small_cap_stuck :
+    ∃ s, roundSys.run { cap := 1 } [.spawn, .spawn, .assign, .assign, .abort, .respondErr] = some s ∧
+      s.joined = false ∧ s.canStep = false ∧ s.busyOld = 1 ∧ s.len = s.cap :=
+  ⟨_, rfl, by decide⟩
+
+-- non-vacuity: the same schedule with the code's capacity runs to the join
+example : ∃ s, roundSys.run { cap := 128 }
+    [.spawn, .spawn, .assign, .assign, .abort, .respondErr, .respondErr, .join] = some s ∧
+    s.joined = true := ⟨_, rfl, by decide⟩
+
 /-- work submitted after `Close` is rejected: a connection goroutine that reaches the thread group
 after `Close` began to wait joins nothing (`Connect` returns `ErrClosed`), and a peer whose
 `runPeer` starts afterwards is not served -/
